@@ -4,7 +4,6 @@ import (
 	"fmt"
 
 	"github.com/onflow/atree"
-	tu "github.com/onflow/atree/test_utils"
 )
 
 // nested: closure over a root container holding nested containers that are mutated through
@@ -254,7 +253,7 @@ func (w *World) IterGet(c *Cont) error {
 	}
 	var got atree.Value
 	if p.IsMap {
-		it, err := p.Map.Iterator(tu.CompareValue, tu.GetHashInput)
+		it, err := p.Map.Iterator(CompareValue, GetHashInput)
 		if err != nil {
 			return violf("mutable map iterator of c%d: %v", p.Serial, err)
 		}
